@@ -47,7 +47,7 @@ PEER_FAULTS = (
     + [{"kind": "torn", "at": a} for a in (1, 17, 1000, 50000)]
     + [{"kind": "json_nonobject", "v": v} for v in range(4)]
     + [{"kind": "no_data", "v": v} for v in range(3)]
-    + [{"kind": "errors", "v": v} for v in range(2)]
+    + [{"kind": "errors", "v": v} for v in range(11)]
     + [{"kind": "data_not_object", "v": v} for v in range(4)]
     + [{"kind": "malformed_data", "v": v} for v in range(6)]
     + [{"kind": "bad_url", "url": u} for u in ("http://schema.test:notaport/graphql", "schema.test/graphql", "://nothing",
@@ -243,7 +243,21 @@ def run_case(case, ch: Choices) -> RunResult:
             ctype = ch.pick("peer.ctype", ["application/json", "application/json", "application/json; charset=utf-8",
                                            "application/graphql-response+json", "application/graphql-response+json; charset=utf-8", None])
             http = {"sdl": sdl, "fault": fault if fault and fault["kind"] != "bad_url" else None, "content_type": ctype}
-            rc = genrun.run_child(root_c, mc["argv"], mc["targets"], env={"SIM_TOKEN": token, "SIM_OTHER_" + token.rsplit("_", 1)[-1]: "wrong-value"}, http=http)
+            # history inside one interpreter: the same endpoint was introspected earlier in this process for another
+            # project, with other credentials and the other TLS setting; the judged run must still send its own request
+            pre_runs = None
+            if ch.chance("remote.same_process_before", 1, 3):
+                root_p = os.path.join(base, "c_earlier")
+                mp_ = worlds.materialize(world, root_p, remote_url=url, extra_cfg={
+                    "remote_schema_headers": {"Authorization": "$SIM_TOKEN_OLD", "X-Role": "reader"},
+                    "remote_schema_verify_ssl": (not verify) if ch.chance("remote.flip_verify", 1, 2) else verify})
+                pre_runs = [{"cwd": root_p, "argv": mp_["argv"], "env": {"SIM_TOKEN_OLD": "old-" + token}}] * (1 + ch.draw("remote.npre", 2))
+                res.bump("remote.same_process_earlier_introspection")
+            rc = genrun.run_child(root_c, mc["argv"], mc["targets"], env={"SIM_TOKEN": token, "SIM_OTHER_" + token.rsplit("_", 1)[-1]: "wrong-value"}, http=http,
+                                  pre_runs=pre_runs, timeout=90 if not pre_runs else 240)
+            if pre_runs:
+                rc["http"] = (rc.get("http") or [])[rc.get("http_main_from", 0):]
+                rc["constructed"] = (rc.get("constructed") or [])[rc.get("constructed_main_from", 0):]
             if rc.get("harness_failure"):
                 raise RuntimeError("child failed: %s" % rc.get("child_stderr"))
             exc = rc.get("exc") or {}
